@@ -8,6 +8,23 @@ Generator: small problems with *known answers by construction*.
    Gradient / Divergence on tiny grids, Broadcast / ProductSpaceOperator /
    Reduction blocks, identity / scaling / multiply), consistent and
    inconsistent right-hand sides;
+ * **same-space operators whose in-place evaluation is not alias-safe**
+   (stratum ``*:square-inplace``, hit by construction in every clause that
+   takes an operator): PartialDerivative / Laplacian and sums / compositions
+   with them on uniform grids, full 2 x 2 block operators with off-diagonal
+   blocks on X x X (blocks: matrices, stencils, or the four blocks of one
+   matrix with prescribed singular values).  `op(x, out=x)` gives a wrong
+   result for these, so a solver that saves a temporary by re-using one
+   buffer for input and output when ``op.domain == op.range`` goes wrong
+   here and only here.  CG sees the same regime through an SPD matrix cut
+   into blocks and through -Laplacian with zero boundary values; pdhg /
+   admm_linearized (one operator) get a single such operator on purpose;
+ * documented options: `projection` of landweber / kaczmarz (metric
+   projection onto a box), `l` of douglas_rachford_pd / forward_backward_pd
+   (Huber terms handed over as infimal convolution), callable `lam`,
+   BacktrackingLineSearch called directly (descent / ascent direction,
+   plain callable with dir_derivative and max_num_iter),
+   power_method_opnorm(maxiter=None), CG started at the solution;
  * non-smooth problems  min phi(x) + 1/2||Ax - b||^2 + sum_i g_i(L_i x)  and
    min phi(x) s.t. Lx = b  **built backwards from their solution**
    (vlib.problems.build_nonsmooth): x*, the certificates
@@ -19,7 +36,9 @@ in the same run) are used; the rest is counted as ``excluded`` (F04).
 
 Oracles: monotonicity invariants at every callback (CG energy error, CGN /
 Landweber residual, Kaczmarz distance to a solution, steepest-descent
-objective under BacktrackingLineSearch), finite termination of CG and CGN
+objective under BacktrackingLineSearch), the documented Landweber / Kaczmarz
+iteration formula re-computed in NumPy with the true adjoint matrix, the
+Armijo condition of a direct line-search call, finite termination of CG and CGN
 reaching the least-squares residual, the power-method bound, the documented
 admissibility inequalities of the step-size helpers, and for the non-smooth
 solvers (i) a solution is a fixed point, (ii) bounded calibrated progress
@@ -79,7 +98,23 @@ TOLERANCES = {
               'finite termination of CG on the normal equations is lost to '
               'rounding beyond)',
     'power': '||A x0|| / ||x0|| * (1 - 1e-10) <= estimate <= sigma_max * '
-             '(1 + 1e-10)',
+             '(1 + 1e-10) (also for maxiter=None with the default rtol / '
+             'atol)',
+    'projection': 'projected Landweber from a feasible start: same residual '
+                  'rule (f(x+) <= f(x) - (1/omega - ||A||^2/2)||x+ - x||^2); '
+                  'Kaczmarz with projection onto a box containing the '
+                  'solution: same distance rule (projection non-expansive)',
+    'cg_at_solution': 'max |x_k - x*| <= 1e-12 max|x*| when rhs = op(x*) '
+                      '(initial residual exactly zero)',
+    'iteration': 'landweber and kaczmarz (fixed order, inner-loop callback): '
+                 'the k-th observed iterate equals the documented iteration '
+                 'x <- x - omega A^*(A x - rhs) (then the projection) carried '
+                 'out in NumPy with the true adjoint matrix, max-norm '
+                 'deviation <= 1e-10 k max(|iterates|, |x0|, |x*|)',
+    'armijo': 'direct BacktrackingLineSearch call: f(x + s d) <= f(x) - '
+              'discount |s <grad f(x), d>| (1 - 1e-9) + 1e-12 |f(x0)| with '
+              'reference values / gradient; sign(s) = + along -grad, - along '
+              '+grad; skipped when |<grad, d>| <= 1e-9 |f(x)|',
     'stepsize': 'tau*sigma*||L||^2 < 1 (pdhg), tau*sum sigma_i ||L_i||^2 < '
                 '4 (DR) strictly; documented default formulas to 1e-12 '
                 'relative; given values returned unchanged',
@@ -88,6 +123,9 @@ TOLERANCES = {
                 'from the calibration table CALIB (measured iteration '
                 'counts x10 capped at 4000, rho x100), 4K before a miss '
                 'counts; runs below 0.1 * start at 4K (slow tails) get 32K',
+    'stability': 'rate class hi (condition / scale-mismatch number > 12): '
+                 'only ||x_k - x*|| <= 1e3 max(||x_0 - x*||, scale) for k <= '
+                 '300 (the run ends early once within 1e-3 ||x_0 - x*||)',
     'kkt': 'inclusion distance with delta-enlarged reference '
            'sub-differentials (delta from eps = rho*||x0-x*||) <= '
            '2 * (||A||^2 + sum ||L_i||^2 Lip_i) * eps + 1e-9 * scale',
@@ -106,9 +144,23 @@ ASSUMPTIONS = [
     'before each run; power_method_opnorm with explicit xstart',
     'BacktrackingLineSearch raising at a point whose reference gradient is '
     'below rounding level is termination at the optimum (documented)',
+    '`l` argument of douglas_rachford_pd / forward_backward_pd: only the '
+    'split lam*Huber_gamma = (lam||.||_1) box (1/(2t)||.||^2), t = gamma/lam '
+    'in [0.4, 2.5]; forward_backward_pd steps then satisfy the documented '
+    'condition with nu = min(t, 1/t) (admissible under both readings of '
+    'the docstring: grad l^* nu-Lipschitz / l nu-strongly convex)',
+    'projections are metric projections onto boxes (diagonal Gram matrices); '
+    'projected Landweber starts inside the box, the Kaczmarz box contains '
+    'the solution',
+    'power_method_opnorm(maxiter=None) on non-self-adjoint operators is the '
+    'region of known finding C12-K4 (excluded by construction, counted, '
+    'probed once per run through its replay)',
 ]
 RULE = ('Hypothesis draws (clause, solver, domain, operators, functionals, '
-        'condition stratum, step fractions, seed); problems are constructed '
+        'condition stratum, step fractions, options, seed); operators '
+        'include, by construction in every clause, same-space operators '
+        'with non-alias-safe in-place evaluation (stencils, full block '
+        'operators; strata *:square-inplace); problems are constructed '
         'from the solution, never filtered; non-trivial = the condition '
         'number exceeds 1 or a non-smooth term is active at x* (zero entries '
         'of L x* for norms, active bounds) and the start differs from the '
@@ -176,6 +228,15 @@ def _domain_st(draw, kinds=('tensor', 'tensor', 'discr', 'pspace')):
         return draw(pb.tensor_domain_st(2, 8))
     if k == 'discr':
         return draw(pb.discr_domain_st())
+    if k == 'sqpspace':
+        # X x X: domain (and range) of full block operators [[A, B], [C, D]]
+        base = draw(st.one_of(pb.tensor_domain_st(1, 4, weighted=False),
+                              pb.discr_domain_st(two_d=False)))
+        if base['kind'] == 'discr':
+            base['shape'] = [min(base['shape'][0], 4)]
+            base['max'] = [base['min'][0] + 0.5 * base['shape'][0]]
+        return {'kind': 'pspace', 'base': base, 'power': 2,
+                'weighting': None, 'exponent': 2.0, 'square': True}
     if k == 'vfield':
         base = draw(pb.discr_domain_st())
         if len(base['shape']) == 1:
@@ -187,6 +248,53 @@ def _domain_st(draw, kinds=('tensor', 'tensor', 'discr', 'pspace')):
              for _ in range(2)]
     return {'kind': 'pspace', 'parts': parts, 'power': None,
             'weighting': None, 'exponent': 2.0}
+
+
+SQ_KINDS = ('discr', 'sqpspace')       # domains of the operators below
+KERNEL_PADS = ['symmetric', 'periodic', 'order0', 'order1']
+
+
+@st.composite
+def _sq_op_st(draw, sd, conds=(1.0, 3.0, 10.0), nullspace=False,
+              known_cond=False):
+    """Same-space operator whose in-place evaluation is NOT alias-safe
+    (`op(x, out=x)` is wrong), on a discretized space or on X x X:
+
+    * PartialDerivative / Laplacian (and sums / compositions with them):
+      the stencil is evaluated through the output array;
+    * full block operator [[A, B], [C, D]] with off-diagonal blocks: the
+      block-wise evaluation into `out` reads components of x after others
+      were written.  Blocks: matrices / stencils / simple operators, or the
+      four blocks of ONE matrix with prescribed singular values (then the
+      conditioning, and with it the asserted rate class, is known).
+
+    With ``nullspace`` the kernel is non-trivial by construction; with
+    ``known_cond`` block operators over rn(n) are always of the second
+    kind."""
+    if sd['kind'] == 'discr':
+        if not nullspace:
+            return draw(pb.stencil_op_st(sd))
+        # stencils that annihilate the constants
+        if draw(st.booleans()):
+            return {'kind': 'laplacian',
+                    'pad_mode': draw(st.sampled_from(KERNEL_PADS[:3]))}
+        return {'kind': 'partial',
+                'axis': draw(st.integers(0, len(sd['shape']) - 1)),
+                'method': draw(st.sampled_from(pb.GRAD_METHODS)),
+                'pad_mode': draw(st.sampled_from(KERNEL_PADS))}
+    if sd['base']['kind'] == 'tensor' and (known_cond or
+                                           draw(st.booleans())):
+        return {'kind': 'pso_cut',
+                'svals': draw(pb.svals_st(2 * sd['base']['shape'][0],
+                                          conds, rank_deficient=nullspace)),
+                'seed': draw(st.integers(0, 2 ** 20))}
+    od = draw(pb.square_block_op_st(sd['base']))
+    if nullspace:
+        # equal block rows
+        od['blocks'][0] = [o if o is not None else {'kind': 'identity'}
+                           for o in od['blocks'][0]]
+        od['blocks'][1] = list(od['blocks'][0])
+    return od
 
 
 @st.composite
@@ -218,17 +326,29 @@ def _op_st(draw, sd, conds=(1.0, 3.0, 10.0, 100.0), nullspace=False,
                                        pb.matrix_op_st(n, conds)))]}
     if sd['kind'] == 'discr':
         if nullspace:
-            return draw(pb.gradient_op_st(pads=['symmetric', 'periodic',
-                                                'order0', 'order1']))
-        choices = ['gradient'] * 3 + (['simple'] if simple_ok else []) + \
+            if draw(st.integers(0, 2)):
+                return draw(pb.gradient_op_st(pads=KERNEL_PADS))
+            return draw(_sq_op_st(sd, conds, nullspace=True))
+        choices = ['gradient'] * 3 + ['stencil'] * 2 + \
+            (['simple'] if simple_ok else []) + \
             (['broadcast'] if compound_ok else [])
         c = draw(st.sampled_from(choices))
         if c == 'gradient':
             return draw(pb.gradient_op_st())
+        if c == 'stencil':
+            return draw(_sq_op_st(sd, conds))
         if c == 'simple':
             return draw(pb.simple_op_st())
         return {'kind': 'broadcast',
-                'ops': [draw(pb.gradient_op_st()), draw(pb.simple_op_st())]}
+                'ops': [draw(pb.gradient_op_st()),
+                        draw(st.one_of(pb.simple_op_st(),
+                                       pb.stencil_op_st(sd,
+                                                        compound=False)))]}
+    if sd.get('square') or (sd.get('power') == 2 and not nullspace and
+                            draw(st.booleans())):
+        if not nullspace and simple_ok and draw(st.integers(0, 5)) == 0:
+            return draw(pb.simple_op_st())
+        return draw(_sq_op_st(dict(sd, square=True), conds, nullspace))
     if sd.get('power') is not None:
         return {'kind': 'divergence',
                 'method': draw(st.sampled_from(pb.GRAD_METHODS)),
@@ -286,8 +406,13 @@ ZC_PHI_KINDS = ('zero', 'box', 'l1', 'l2')
 
 
 @st.composite
-def _ns_case_st(draw, solver, clause):
-    """Non-smooth problem descriptor + mapping + step fractions."""
+def _ns_case_st(draw, solver, clause, sq=False):
+    """Non-smooth problem descriptor + mapping + step fractions.  ``sq``
+    (strongly convex family only): the first term carries a same-space
+    operator with non-alias-safe in-place evaluation (`_sq_op_st`); pdhg /
+    admm_linearized, which take ONE operator (a BroadcastOperator as soon as
+    there is a second term or a separate data term), then get exactly this
+    operator: f = 1/2||. - b||^2, g o L with L: X -> X."""
     families = ['strong'] * 4
     if solver in ('pdhg', 'dr', 'fb', 'admm') and \
             (clause == 'progress' or solver == 'pdhg'):
@@ -375,33 +500,63 @@ def _ns_case_st(draw, solver, clause):
         case['map'] = 'quadf' if p['phi']['kind'] == 'zero' and \
             (accel == 'primal' or draw(st.booleans())) else 'datag'
     else:
-        kinds = ('tensor', 'tensor', 'discr', 'pspace')
-        sd = draw(_domain_st(kinds=kinds))
+        kinds = ('tensor', 'tensor', 'discr', 'discr', 'pspace', 'sqpspace')
+        sd = draw(_domain_st(kinds=SQ_KINDS if sq else kinds))
+        if sq:
+            # cell sides >= 1: stencil norms (<= 4 ndim / h^2) stay on the
+            # scale of the data term, so that the problem is not put into
+            # the stability-only rate class by the grid alone
+            g = sd if sd['kind'] == 'discr' else sd['base']
+            if g['kind'] == 'discr':
+                h = draw(st.sampled_from([1.0, 2.0]))
+                g['max'] = [lo + h * k for lo, k in zip(g['min'],
+                                                         g['shape'])]
         smooth_only = solver in ('proxgrad', 'accel')
         nterms = draw(st.sampled_from(
             [0, 1, 1, 2] if solver in ('dr', 'fb', 'proxgrad', 'accel')
             else [1, 1, 2]))
-        if nullspace:
+        # dr / fb: a Huber term whose infimal-convolution split is
+        # admissible (see _split_l), handed over through `l`
+        force_l = solver in ('dr', 'fb') and draw(st.integers(0, 3)) == 0
+        if nullspace or force_l or sq:
             nterms = max(nterms, 1)
+        single_sq = sq and solver in ('pdhg', 'admm') and \
+            accel != 'dual' and not zero_cert
+        if single_sq:
+            nterms = 1
         terms = []
-        for _ in range(nterms):
+        for i in range(nterms):
             tk = ('l2sq', 'huber') if (smooth_only or accel == 'dual') \
                 else TERM_KINDS
             if zero_cert and not nullspace:
                 # kinked terms need L x* = 0: give them a kernel
-                want_null = draw(st.booleans())
-                od = draw(_op_st(sd, conds=conds, nullspace=want_null,
-                                 compound_ok=False))
+                want_null = draw(st.booleans()) or (force_l and i == 0)
+                od = draw(_sq_op_st(sd, conds, nullspace=want_null,
+                                    known_cond=True)) \
+                    if sq and i == 0 else \
+                    draw(_op_st(sd, conds=conds, nullspace=want_null,
+                                compound_ok=False))
                 if not want_null:
                     tk = ('l2sq', 'box', 'zero', 'box')
+            elif sq and i == 0:
+                od = draw(_sq_op_st(sd, conds, nullspace=nullspace,
+                                    known_cond=True))
             else:
                 od = draw(_op_st(sd, conds=conds, nullspace=nullspace,
                                  compound_ok=not nullspace))
-            terms.append({'L': od, 'g': draw(_range_func_st(sd, od, tk))})
+            gd = None
+            if force_l and i == 0 and pb.range_class(
+                    od, pb.space_class(sd))['t'] == 'leaf':
+                gd = draw(pb.func_desc_st(('huber',)))
+                gd['gamma'] = draw(st.sampled_from(
+                    [v for v in (0.5, 1.0, 2.0)
+                     if 0.4 <= v / gd['lam'] <= 2.5]))
+            terms.append({'L': od, 'g': gd if gd is not None else
+                          draw(_range_func_st(sd, od, tk))})
         mapping = 'datag'
         if solver in ('pdhg', 'dr', 'admm'):
-            mapping = 'quadf' if (nullspace or draw(st.booleans())) \
-                else 'datag'
+            mapping = 'quadf' if (nullspace or single_sq or
+                                  draw(st.booleans())) else 'datag'
             if accel != 'none':
                 mapping = 'quadf' if accel == 'primal' else 'datag'
         if mapping == 'quadf':
@@ -419,6 +574,7 @@ def _ns_case_st(draw, solver, clause):
                                                        'form': 'left'}}]
         p.update(domain=sd, A=A, phi=phi, terms=terms)
         case['map'] = mapping
+        case['force_l'] = force_l
     case['p'] = p
     # step sizes (fractions of the admissible regions)
     case['steps'] = {
@@ -432,20 +588,30 @@ def _ns_case_st(draw, solver, clause):
         'relax': draw(st.booleans()),
         'accel': accel,
         'gfrac': draw(st.sampled_from([0.3, 0.7, 1.0])),
+        # douglas_rachford_pd / forward_backward_pd: Huber terms handed
+        # over as the infimal convolution (lam ||.||_1) box (1/(2t) ||.||^2)
+        # through the documented `l` argument
+        'via_l': draw(st.booleans()) or bool(case.get('force_l')),
+        # `lam` as a callable k -> lam_k (proximal_gradient,
+        # douglas_rachford_pd)
+        'lam_callable': draw(st.booleans()),
     }
     return case
 
 
 @st.composite
-def _dr_dual_case_st(draw):
+def _dr_dual_case_st(draw, sq=False):
     """Douglas-Rachford fixed point with a non-zero dual certificate:
     f = 1/2||x - a||^2, g_i = lam_i ||. - b_i||^2 (data solved in the run
     from the fixed-point equations of the documented iteration)."""
-    sd = draw(_domain_st(kinds=('tensor', 'tensor', 'discr', 'pspace')))
+    sd = draw(_domain_st(kinds=SQ_KINDS if sq else
+                         ('tensor', 'tensor', 'discr', 'pspace',
+                          'sqpspace')))
     terms = []
-    for _ in range(draw(st.integers(1, 2))):
-        terms.append({'L': draw(_op_st(sd, conds=[1.0, 3.0, 10.0],
-                                      compound_ok=False)),
+    for i in range(draw(st.integers(1, 2))):
+        terms.append({'L': draw(_sq_op_st(sd)) if sq and i == 0 else
+                      draw(_op_st(sd, conds=[1.0, 3.0, 10.0],
+                                  compound_ok=False)),
                       'lam': draw(st.sampled_from(pb.LAMS)),
                       'form': draw(st.sampled_from(['left', 'right']))})
     return {'domain': sd, 'terms': terms,
@@ -460,7 +626,10 @@ SCALES = [1e-9, 1e-4, 1.0, 1e4, 1e9]
 
 
 @st.composite
-def _lin_case_st(draw, clause):
+def _lin_case_st(draw, clause, sq=False):
+    """``sq``: the operator (Kaczmarz: the first one; CG: the SPD system as
+    a block operator or as -Laplacian) maps its domain into itself and its
+    in-place evaluation is not alias-safe (`_sq_op_st`)."""
     seed = draw(st.integers(0, 2 ** 24))
     c = {'seed': seed, 'x0scale': draw(st.sampled_from([1.0, 10.0, 0.1]))}
     if clause != 'stepsize':
@@ -489,11 +658,22 @@ def _lin_case_st(draw, clause):
             sv = [sv[int(i * d / n) * (n - 1) // max(d - 1, 1)
                      if d > 1 else 0] for i in range(n)]
         c.update(domain=sd, svals=sv, extra=draw(st.integers(0, 3)))
+        # the same SPD system behind operators that evaluate in place in a
+        # non-alias-safe way: 2 x 2 block operator on rn(k) x rn(n - k),
+        # and -Laplacian (zero boundary values) on a uniform grid
+        form = draw(st.sampled_from(['block', 'neglap'])) if sq else 'matrix'
+        if form == 'block':
+            c.update(form=form, split=draw(st.integers(1, n - 1)))
+        elif form == 'neglap':
+            c.update(form=form, domain=draw(pb.discr_domain_st()), svals=[])
+        c['at_solution'] = draw(st.integers(0, 7)) == 0
     elif clause in ('cgn', 'landweber'):
-        sd = draw(_domain_st(kinds=('tensor', 'tensor', 'discr', 'pspace',
-                                    'vfield')))
+        sd = draw(_domain_st(kinds=SQ_KINDS if sq else
+                             ('tensor', 'tensor', 'discr', 'pspace',
+                              'vfield', 'sqpspace')))
         conds = pb.COND_STRATA if clause == 'cgn' else [1.0, 3.0, 10.0, 1e2]
-        od = draw(_op_st(sd, conds=conds))
+        od = draw(_sq_op_st(sd, conds)) if sq else \
+            draw(_op_st(sd, conds=conds))
         if od['kind'] == 'matrix' and draw(st.integers(0, 11)) == 0:
             # range weighted differently from the domain: the library
             # adjoint is not the adjoint there (F04) -> counted as excluded
@@ -502,12 +682,19 @@ def _lin_case_st(draw, clause):
                  consistent=draw(st.booleans()),
                  frac=draw(st.sampled_from([0.1, 0.5, 0.9, 0.99])),
                  niter=draw(st.sampled_from([5, 12, 30])))
+        # projected Landweber: `projection` = metric projection onto a box
+        # that contains the start point
+        c['projection'] = clause == 'landweber' and \
+            draw(st.integers(0, 3)) == 0
     elif clause == 'kaczmarz':
-        sd = draw(_domain_st(kinds=('tensor', 'tensor', 'discr', 'pspace')))
+        sd = draw(_domain_st(kinds=SQ_KINDS if sq else
+                             ('tensor', 'tensor', 'discr', 'pspace',
+                              'sqpspace')))
         nops = draw(st.integers(1, 4))
         c.update(domain=sd,
-                 ops=[draw(_op_st(sd, compound_ok=False))
-                      for _ in range(nops)],
+                 ops=[draw(_sq_op_st(sd)) if sq and i == 0 else
+                      draw(_op_st(sd, compound_ok=False))
+                      for i in range(nops)],
                  fracs=[draw(st.sampled_from([0.25, 0.5, 0.75, 0.95]))
                         for _ in range(nops)],
                  omega_list=draw(st.booleans()),
@@ -520,10 +707,15 @@ def _lin_case_st(draw, clause):
         c['random'] = draw(st.booleans())
         if c['random'] or draw(st.booleans()):
             c['omega_list'] = True
+        # `projection` = metric projection onto a box that contains the
+        # solution (some bounds active at it)
+        c['projection'] = draw(st.integers(0, 3)) == 0
     elif clause == 'steepest':
-        sd = draw(_domain_st(kinds=('tensor', 'tensor', 'discr')))
-        A = draw(_op_st(sd, conds=[1.0, 3.0, 10.0, 100.0])) \
-            if draw(st.integers(0, 3)) else None
+        sd = draw(_domain_st(kinds=SQ_KINDS if sq else
+                             ('tensor', 'tensor', 'discr', 'sqpspace')))
+        A = draw(_sq_op_st(sd)) if sq else (
+            draw(_op_st(sd, conds=[1.0, 3.0, 10.0, 100.0]))
+            if draw(st.integers(0, 3)) else None)
         extra = None
         if draw(st.booleans()):
             od = draw(_op_st(sd, compound_ok=False))
@@ -538,11 +730,19 @@ def _lin_case_st(draw, clause):
                  discount=draw(st.sampled_from([0.01, 0.1, 0.4])),
                  estimate_step=draw(st.booleans()),
                  alpha=draw(st.sampled_from([1.0, 4.0, 0.1])),
-                 niter=draw(st.sampled_from([5, 12, 25])))
+                 niter=draw(st.sampled_from([5, 12, 25])),
+                 # the line search called directly at the start point:
+                 # along -grad, along +grad (documented: it then moves
+                 # backwards), or with a plain callable + dir_derivative
+                 # and an explicit max_num_iter
+                 ls_direct=draw(st.sampled_from(
+                     [None, 'descent', 'ascent', 'callable'])))
     elif clause == 'power':
-        sd = draw(_domain_st(kinds=('tensor', 'tensor', 'discr', 'pspace',
-                                    'vfield')))
-        kind = draw(st.sampled_from(['general'] * 3 + ['selfadj', 'sym']))
+        sd = draw(_domain_st(kinds=SQ_KINDS if sq else
+                             ('tensor', 'tensor', 'discr', 'pspace',
+                              'vfield', 'sqpspace')))
+        kind = 'sq' if sq else \
+            draw(st.sampled_from(['general'] * 3 + ['selfadj', 'sym']))
         if kind == 'selfadj':
             od = draw(st.sampled_from([
                 {'kind': 'identity'},
@@ -554,11 +754,15 @@ def _lin_case_st(draw, clause):
                 sd['shape'][0], pb.COND_STRATA)),
                 'seed': draw(st.integers(0, 2 ** 20)),
                 'signs': draw(st.booleans())}
+        elif kind == 'sq':
+            od = draw(_sq_op_st(sd, pb.COND_STRATA))
         else:
             od = draw(_op_st(sd, conds=pb.COND_STRATA))
         c.update(domain=sd, op=od,
                  tight=draw(st.booleans()),
-                 via_norm=draw(st.integers(0, 3)) == 0)
+                 via_norm=draw(st.integers(0, 3)) == 0,
+                 until_conv=kind in ('selfadj', 'sym') or
+                 draw(st.booleans()))
     elif clause == 'stepsize':
         m = draw(st.integers(1, 4))
         c.update(which=draw(st.sampled_from(['pdhg', 'dr'])),
@@ -577,16 +781,20 @@ def _lin_case_st(draw, clause):
 @st.composite
 def _strategy(draw):
     kind = draw(st.sampled_from(['lin'] * 2 + ['ns'] * 3))
+    # stratum hit by construction in every clause that takes an operator
+    # (one top-level draw; the other two thirds still meet such operators
+    # by chance): same-space operator, in-place evaluation not alias-safe
+    sq = draw(st.sampled_from([False, False, True]))
     if kind == 'lin':
         clause = draw(st.sampled_from(LIN_CLAUSES))
-        return {'clause': clause, 'c': draw(_lin_case_st(clause))}
+        return {'clause': clause, 'c': draw(_lin_case_st(clause, sq))}
     solver = draw(st.sampled_from(NS_SOLVERS))
     clause = draw(st.sampled_from(['fixed', 'progress', 'progress']))
     if solver == 'dr' and clause == 'fixed' and draw(st.booleans()):
         return {'clause': 'fixed-dual', 'solver': 'dr',
-                'c': draw(_dr_dual_case_st())}
+                'c': draw(_dr_dual_case_st(sq))}
     return {'clause': clause, 'solver': solver,
-            'c': draw(_ns_case_st(solver, clause))}
+            'c': draw(_ns_case_st(solver, clause, sq))}
 
 
 def strategy(tier):
@@ -645,11 +853,51 @@ def _start(c, rng, xsol, sx, n):
 
 
 def _dom_kind(sd):
+    if sd.get('square'):
+        return 'sqpspace'
     if sd['kind'] == 'pspace':
         return 'vfield' if sd.get('power') is not None else 'pspace'
     if sd['kind'] == 'tensor' and sd.get('weighting'):
         return 'tensor-weighted'
     return sd['kind']
+
+
+def _inplace_unsafe(od):
+    """Operator maps its domain into itself and its in-place evaluation is
+    not alias-safe (finite-difference stencils, block operators with
+    off-diagonal blocks): the regime in which re-using one buffer for the
+    input and the output of `op` / `op.adjoint` goes wrong."""
+    if od is None:
+        return False
+    if od['kind'] == 'broadcast':
+        return False
+    return pb.op_shape_stratum(od) is not None
+
+
+def _op_tags(ods, clause, stacked=False):
+    """Strata of the operators of a case; ``stacked``: the solver receives
+    one BroadcastOperator of all of them (never a same-space operator)."""
+    tags = ['op:' + o['kind'] for o in ods if o is not None]
+    if not stacked and any(_inplace_unsafe(o) for o in ods):
+        tags += ['op:square-inplace', clause + ':square-inplace']
+    return tags
+
+
+def _same_iterates(seq, ref, others, sig):
+    """Observed iterates against the documented iteration carried out in
+    NumPy (both are non-expansive for the admissible steps drawn here, so
+    rounding errors add up at most linearly)."""
+    if len(seq) != len(ref):
+        raise Violation(sig + '|count', '{} callbacks for {} iterations'
+                        ''.format(len(seq), len(ref)))
+    scale = max([float(np.max(np.abs(v), initial=0.0))
+                 for v in list(ref) + list(others)] + [1e-300])
+    for k, (a, b_) in enumerate(zip(seq, ref)):
+        dev = float(np.max(np.abs(a - b_), initial=0.0))
+        if not dev <= 1e-10 * (k + 1) * scale:
+            raise Violation(sig, 'iterate {} deviates from the documented '
+                            'iteration by {:.3g} (scale {:.3g})'.format(
+                                k + 1, dev, scale))
 
 
 def _cond_of(sv):
@@ -671,23 +919,91 @@ def _mono(seq, scale, sig, what):
 # --------------------------------------------------------------------------
 # linear clauses
 
+def _cg_system(c, so):
+    """(X, op, A, eigenvalues) of the self-adjoint positive definite system.
+
+    form 'matrix': MatrixOperator Q diag(lam) Q^T on (weighted) rn;
+    form 'block':  the same matrix cut into 2 x 2 blocks, as a
+                   ProductSpaceOperator on rn(k) x rn(n - k) (domain == range,
+                   off-diagonal blocks: evaluation into `out` is block-wise);
+    form 'neglap': -Laplacian with zero boundary values on a uniform grid
+                   (symmetric positive definite w.r.t. the cell-volume
+                   weighted inner product; in-place stencil evaluation).
+    """
+    form = c.get('form', 'matrix')
+    if form == 'neglap':
+        X = pb.build.build_space(c['domain'])
+        op = _scaled_op(-odl.Laplacian(X, pad_mode='constant'), so)
+        A = pb.LinOp(op).M
+        rng = np.random.RandomState(int(c['seed']) % (2 ** 32))
+        xsol = np.round(rng.standard_normal(A.shape[0]), 3)
+        return X, op, A, xsol, rng
+    X0 = pb.build.build_space(c['domain'])
+    op, A, xsol, _, rng = pb.spd_system(
+        X0, [so * float(v) for v in c['svals']], c['seed'])
+    if form == 'matrix':
+        return X0, op, A, xsol, rng
+    n, k = X0.size, int(c['split'])
+    parts = [dict(c['domain'], shape=[k]), dict(c['domain'], shape=[n - k])]
+    X = pb.build.build_space({'kind': 'pspace', 'parts': parts,
+                              'power': None, 'weighting': None,
+                              'exponent': 2.0})
+    cuts = [slice(0, k), slice(k, n)]
+    op = odl.ProductSpaceOperator(
+        [[odl.MatrixOperator(A[ri, ci], domain=X[j], range=X[i])
+          for j, ci in enumerate(cuts)] for i, ri in enumerate(cuts)],
+        domain=X, range=X)
+    return X, op, A, xsol, rng
+
+
 def _cg(c, strata):
-    X = pb.build.build_space(c['domain'])
     so, sx = _scales(c, strata)
-    op, A, xsol, rhs, rng = pb.spd_system(
-        X, [so * float(v) for v in c['svals']], c['seed'])
-    n = X.size
+    form = c.get('form', 'matrix')
+    X, op, A, xsol, rng = _cg_system(c, so)
+    n = A.shape[0]
     dX = pb.gram_diag(X)
-    cond = _cond_of(c['svals'])
+    # spectrum of the operator in the inner product of X
+    ev = np.linalg.eigvalsh(pb.sym_matrix(A, dX, dX))
+    if form == 'matrix':
+        cond = _cond_of(c['svals'])
+        distinct = len(set(np.round(np.asarray(c['svals']) /
+                                    max(c['svals']), 6).tolist()))
+    else:
+        if not ev[0] > 0:
+            raise HarnessError('CG system is not positive definite')
+        cond = float(ev[-1] / ev[0])
+        distinct = len(set(np.round(ev / ev[-1], 6).tolist())) \
+            if form == 'block' else n
     xsol = sx * xsol
     rhs = A @ xsol
     x0 = xsol + sx * np.round(rng.standard_normal(n) * float(c['x0scale']),
                               3)
     w = _start(c, rng, xsol, sx, n)
     x0 = x0 if w is None else w
-    x = X.element(x0.copy())
+    strata += ['cg', 'cg:' + form, pb.cond_label(cond)]
+    dk = _dom_kind(c['domain']) if form != 'block' else 'pspace-block'
+    if c.get('at_solution'):
+        # started exactly at a solution (rhs evaluated by the operator
+        # itself, so the initial residual is exactly zero) the method is
+        # exact at once: the iterate must not move
+        x = unflat(xsol, X)
+        rhs_el = op(x)
+        seq = []
+        S.conjugate_gradient(op, x, rhs_el, n,
+                             callback=lambda v: seq.append(toflat(v, X)))
+        dev = max([float(np.max(np.abs(v - xsol))) for v in
+                   seq + [toflat(x, X)]])
+        if not dev <= 1e-12 * max(np.max(np.abs(xsol)), 1e-300):
+            raise Violation(
+                'C12|cg-at-solution|conjugate_gradient|{},{}'.format(
+                    dk, _sc_region(c)),
+                'started at x* with rhs = A(x*), the iterate moves by '
+                '{:.3g}'.format(dev))
+        return Outcome('ok', strata=strata + ['cg:start-at-solution'],
+                       nontrivial=bool(np.any(xsol)))
+    x = unflat(x0.copy(), X)
     seq = []
-    S.conjugate_gradient(op, x, X.element(rhs.copy()), n + int(c['extra']),
+    S.conjugate_gradient(op, x, unflat(rhs.copy(), X), n + int(c['extra']),
                          callback=lambda v: seq.append(toflat(v, X)))
 
     def energy(v):
@@ -700,17 +1016,13 @@ def _cg(c, strata):
     # solution (matters for warm starts, whose start error is tiny)
     estar = float(np.sqrt(max(np.sum(dX * xsol * (A @ xsol)), 0.0))) + e0
     floor = 1e-11 * cond * e0 + 1e-12 * cond * estar
-    strata += ['cg', pb.cond_label(cond)]
-    sig = 'C12|cg-energy|conjugate_gradient|{},{}'.format(
-        _dom_kind(c['domain']), _sc_region(c))
+    sig = 'C12|cg-energy|conjugate_gradient|{},{}'.format(dk, _sc_region(c))
     for k in range(1, len(es)):
         if es[k - 1] > floor and not es[k] < es[k - 1]:
             raise Violation(sig, 'energy-norm error not strictly decreasing '
                             'at step {}: {!r} -> {!r} (cond {:.3g})'.format(
                                 k, es[k - 1], es[k], cond))
     final = toflat(x, X)
-    distinct = len(set(np.round(np.asarray(c['svals']) /
-                                max(c['svals']), 6).tolist()))
     if cond <= 1e2 * (1 + 1e-4):
         # 1e-8 cond of the start error plus the attainable accuracy
         # (eps cond ||x*||, with margin): relative to the problem scale
@@ -721,7 +1033,7 @@ def _cg(c, strata):
         if not err <= tol:
             raise Violation(
                 'C12|cg-finite|conjugate_gradient|{},{}'.format(
-                    _dom_kind(c['domain']), _sc_region(c)),
+                    dk, _sc_region(c)),
                 '||x_n - x*|| = {:.3g} > {:.3g} after n = {} steps (cond '
                 '{:.3g})'.format(err, tol, n, cond))
         if distinct < n:
@@ -730,7 +1042,7 @@ def _cg(c, strata):
             if not err <= tol * 100:
                 raise Violation(
                     'C12|cg-finite-distinct|conjugate_gradient|{},{}'.format(
-                        _dom_kind(c['domain']), _sc_region(c)),
+                        dk, _sc_region(c)),
                     '||x_d - x*|| = {:.3g} after d = {} steps for {} '
                     'distinct eigenvalues'.format(err, distinct, distinct))
             strata.append('cg:clustered')
@@ -774,12 +1086,41 @@ def _residual_clause(c, strata, clause):
         if A.norm == 0:
             return Outcome('trivial', strata=strata + ['zero-operator'])
         omega = float(c['frac']) * 2 / A.norm ** 2
-        S.landweber(A.op, x, rhs_el, N, omega=omega, callback=cb)
         name = 'landweber'
+        if c.get('projection'):
+            # projected gradient steps on 1/2||Ax - rhs||^2 from a feasible
+            # point: f(x+) <= f(x) - (1/omega - ||A||^2/2) ||x+ - x||^2, so
+            # the residual is non-increasing for 0 < omega < 2/||A||^2 (the
+            # box projection is the metric projection for the diagonal Gram
+            # matrices drawn here)
+            half = sx * np.round(rng.uniform(0.3, 2.0, n), 3)
+            half[rng.uniform(0, 1, n) < 0.3] = np.inf
+            x0 = np.clip(x0, -half, half)
+            x = unflat(x0, X)
+
+            def proj(v):
+                v.assign(unflat(np.clip(toflat(v, X), -half, half), X))
+
+            S.landweber(A.op, x, rhs_el, N, omega=omega, projection=proj,
+                        callback=cb)
+            name = 'landweber+projection'
+            strata.append('landweber:projection')
+        else:
+            S.landweber(A.op, x, rhs_el, N, omega=omega, callback=cb)
+        # the documented iteration x_{k+1} = x_k - omega A^*(A x_k - rhs)
+        # (followed by the projection), with the true adjoint matrix
+        ref, xr = [], x0.copy()
+        for _ in range(N):
+            xr = xr - omega * (A.adj @ (A.M @ xr - rhs))
+            if c.get('projection'):
+                xr = np.clip(xr, -half, half)
+            ref.append(xr)
+        _same_iterates(seq, ref, [x0, xt], 'C12|iteration|{}|{}'.format(
+            name, _dom_kind(c['domain'])))
     res = [wnorm(A.M @ v - rhs, A.dY) for v in [x0] + seq]
     scale = max(wnorm(rhs, A.dY), res[0], 1e-300)
-    strata += [clause, pb.cond_label(cond), 'op:' + c['op']['kind'],
-               'consistent' if c['consistent'] else 'inconsistent']
+    strata += [clause, pb.cond_label(cond)] + _op_tags([c['op']], clause) + \
+        ['consistent' if c['consistent'] else 'inconsistent']
     checked = res
     after = None
     if clause == 'cgn':
@@ -865,27 +1206,105 @@ def _kaczmarz(c, strata):
     om = [fr * 2 / l.norm ** 2 for fr, l in zip(c['fracs'], lins)]
     omega = om if c['omega_list'] else min(om)
     rand = bool(c.get('random'))
+    kw = {}
+    if c.get('projection'):
+        # projection onto a closed convex set that contains the solution is
+        # non-expansive and leaves the solution fixed: the distance to it
+        # still cannot increase
+        below = sx * np.round(rng.uniform(0.0, 1.0, n), 3)
+        above = sx * np.round(rng.uniform(0.0, 1.0, n), 3)
+        below[rng.uniform(0, 1, n) < 0.3] = 0.0
+        above[rng.uniform(0, 1, n) < 0.3] = 0.0
+        below[rng.uniform(0, 1, n) < 0.2] = np.inf
+        lo_, hi_ = xt - below, xt + above
+
+        def proj(v):
+            v.assign(unflat(np.clip(toflat(v, X), lo_, hi_), X))
+
+        kw['projection'] = proj
     for loop in ('inner', 'outer'):
         x = unflat(x0, X)
         seq = []
         np.random.seed(int(c['seed']) % (2 ** 32))
         S.kaczmarz([l.op for l in lins], x, rhs, int(c['niter']),
                    omega=omega, random=rand, callback_loop=loop,
-                   callback=lambda v: seq.append(toflat(v, X)))
+                   callback=lambda v: seq.append(toflat(v, X)), **kw)
+        if loop == 'inner' and not rand:
+            # documented: x <- x - omega_[k] A_[k]^*(A_[k] x - rhs_[k]),
+            # [k] = k mod n (then the projection)
+            oms = om if c['omega_list'] else [min(om)] * len(lins)
+            ref, xr = [], x0.copy()
+            for _ in range(int(c['niter'])):
+                for l, w_ in zip(lins, oms):
+                    xr = xr - w_ * (l.adj @ (l.M @ (xr - xt)))
+                    if kw:
+                        xr = np.clip(xr, lo_, hi_)
+                    ref.append(xr)
+            _same_iterates(seq, ref, [x0, xt],
+                           'C12|iteration|kaczmarz{}|{}'.format(
+                               '+projection' if kw else '',
+                               _dom_kind(c['domain'])))
         dist = [wnorm(v - xt, dX) for v in [x0] + seq]
         _mono(dist, max(dist[0], wnorm(xt, dX), 1e-300),
-              'C12|kaczmarz-distance|kaczmarz|order={},{}'.format(
+              'C12|kaczmarz-distance|kaczmarz{}|order={},{}'.format(
+                  '+projection' if kw else '',
                   'random' if rand else 'fixed', _dom_kind(c['domain'])),
               'distance to a solution ({} loop)'.format(loop))
     nr = [l.norm for l in lins if l.norm > 0]
     strata += ['kaczmarz', 'nops:{}'.format(len(lins)),
                'kaczmarz:random' if rand else 'kaczmarz:fixed-order',
                'kaczmarz:omega-' + ('list' if c['omega_list'] else 'float')
-               ] + ['op:' + o['kind'] for o in c['ops']]
+               ] + _op_tags(c['ops'], 'kaczmarz')
     if len(nr) >= 2 and max(nr) >= 5 * min(nr) and c['omega_list']:
         strata.append('kaczmarz:norms-differ-5x')
+    if kw:
+        strata.append('kaczmarz:projection')
     return Outcome('ok', strata=strata,
                    nontrivial=dist[0] > 0 and dist[-1] < dist[0])
+
+
+def _ls_direct(c, strata, f, X, dX, x0, refgrad, value, scale):
+    """BacktrackingLineSearch called directly: the returned step fulfils
+    the documented sufficient-decrease (Armijo) condition
+    f(x + s d) <= f(x) - discount |s <grad f(x), d>|, also along an ascent
+    direction (negative step) and for a plain callable."""
+    mode = c['ls_direct']
+    g = refgrad(x0)
+    d = -g if mode != 'ascent' else g
+    dd = float(np.sum(dX * g * d))
+    if not abs(dd) > 1e-9 * max(abs(value(x0)), 1e-300):
+        return
+    tau, disc = float(c['ls_tau']), float(c['discount'])
+    kw = dict(tau=tau, discount=disc, alpha=float(c['alpha']),
+              estimate_step=bool(c['estimate_step']))
+    sig = 'C12|linesearch-armijo|BacktrackingLineSearch|' + mode
+    try:
+        if mode == 'callable':
+            ls = S.BacktrackingLineSearch(
+                lambda v: f(v), max_num_iter=int(np.ceil(
+                    np.log(1e-14) / np.log(tau))), **kw)
+            step = ls(unflat(x0, X), unflat(d, X), dir_derivative=dd)
+        else:
+            ls = S.BacktrackingLineSearch(f, **kw)
+            step = ls(unflat(x0, X), unflat(d, X))
+    except ValueError as e:
+        raise Violation(sig + '|no-step', 'no step found at a point with '
+                        'directional derivative {:.3g} (objective {:.3g}): '
+                        '{}'.format(dd, value(x0), str(e)[:120]))
+    try:
+        step = float(step)
+    except (TypeError, ValueError):
+        raise Violation(sig, 'non-scalar step {!r}'.format(step))
+    v0, v1 = value(x0), value(x0 + step * d)
+    if not (np.isfinite(step) and step != 0 and
+            v1 <= v0 - disc * abs(step * dd) * (1 - 1e-9) + 1e-12 * scale):
+        raise Violation(sig, 'step {!r} along the {} direction: f = {!r} -> '
+                        '{!r}, required decrease {!r}'.format(
+                            step, mode, v0, v1, disc * abs(step * dd)))
+    if (step > 0) != (mode != 'ascent'):
+        raise Violation(sig + '|sign', 'step {!r} along the {} direction'
+                        ''.format(step, mode))
+    strata.append('ls-direct:' + mode)
 
 
 def _steepest(c, strata):
@@ -932,12 +1351,16 @@ def _steepest(c, strata):
                                 extra[0].dY, extra[0].M @ v)
         return val
 
-    def gradnorm2(v):
+    def refgrad(v):
         g = pb.true_adjoint(MA, dX, dZ) @ (MA @ v - b)
         if extra is not None:
             sd_ = pb.ref_subdiff(extra[1], extra[2], extra[0].op.range,
                                  extra[0].dY, extra[0].M @ v)
             g = g + extra[0].adj @ sd_.lo
+        return g
+
+    def gradnorm2(v):
+        g = refgrad(v)
         return float(np.sum(dX * g * g))
 
     x0 = sx * np.round(rng.standard_normal(n) * float(c['x0scale']), 3)
@@ -966,8 +1389,12 @@ def _steepest(c, strata):
         if not vals[k] <= vals[k - 1] + 1e-12 * scale:
             raise Violation(sig, 'objective increases at iteration {}: '
                             '{!r} -> {!r}'.format(k, vals[k - 1], vals[k]))
+    if c.get('ls_direct'):
+        _ls_direct(c, strata, f, X, dX, x0, refgrad, value, scale)
     strata += ['steepest', 'ls-estimate-step' if c['estimate_step']
-               else 'ls-plain']
+               else 'ls-plain'] + _op_tags(
+                   [c['A']] + ([c['extra']['L']] if c['extra'] else []),
+                   'steepest')
     if stopped is not None:
         # termination at the optimum: the reference gradient is at rounding
         # level relative to the objective (documented behaviour of the line
@@ -1017,8 +1444,20 @@ def _power(c, strata):
     lower = wnorm(A.M @ x0, A.dY) / wnorm(x0, A.dX)
     iters = [1, 2, 3, 5, 10] if selfadj else [2, 4, 6, 10, 20, 50]
     kw = {'rtol': 0.0, 'atol': 0.0} if c['tight'] else {}
+    if not c['tight'] and c.get('until_conv'):
+        # documented: maxiter=None iterates until convergence (default
+        # rtol / atol)
+        if selfadj or c.get('probe_known'):
+            iters = iters + [None]
+            strata.append('power:maxiter-none')
+        else:
+            # region of the known finding C12-K4 (maxiter=None is rejected
+            # for every non-self-adjoint operator): excluded by construction
+            # and counted; the finding's own replay carries "probe_known".
+            # Remove this branch when C12-K4 is fixed.
+            strata.append('excluded:C12-K4')
     strata += ['power', 'power:selfadjoint' if selfadj else 'power:normal',
-               'op:' + od['kind'],
+               ] + _op_tags([od], 'power') + [
                'norm>1' if A.norm > 1 else 'norm<=1']
     region = '{}|{}'.format('selfadjoint' if selfadj else 'normal',
                             _dom_kind(c['domain']))
@@ -1032,6 +1471,11 @@ def _power(c, strata):
                 est = odl.power_method_opnorm(op, xstart=unflat(x0, X),
                                               maxiter=it, **kw)
         except ValueError as e:
+            if it is None and 'even number' in str(e):
+                raise Violation(
+                    'C12|power-maxiter-none|power_method_opnorm|' + region,
+                    'maxiter=None (documented: iterate until convergence) '
+                    'is rejected: ' + str(e)[:160])
             if 'reached' in str(e) and (lower == 0 or A.norm == 0 or
                                         wnorm(A.adj @ (A.M @ x0), A.dX) <
                                         1e-12 * A.norm ** 2 *
@@ -1159,6 +1603,34 @@ def _stack(P, pairs):
     return L, g, y
 
 
+def _split_l(T, on):
+    """(g, l, nu) for a term: with ``on`` a Huber term lam * Huber_gamma is
+    split into its infimal-convolution factors g = lam ||.||_1 and
+    l = 1/(2t) ||.||^2, t = gamma / lam (Moreau envelope of the scaled
+    1-norm: z^2/(2t) for |z| <= t lam, lam |z| - t lam^2 / 2 beyond; the
+    weights of the space are the same in all three functionals, the
+    convolution is pointwise).  grad l^* = t Id; nu = min(t, 1/t) is
+    admissible under both readings of the documented step condition
+    (grad l^* nu-Lipschitz / l nu-strongly convex).  Splits with a small nu
+    force tiny steps and are not taken."""
+    if on and T.fd['kind'] == 'huber':
+        lam_ = float(T.fd.get('lam', 1.0))
+        t = float(T.fd['gamma']) / lam_
+        if 0.4 <= t <= 2.5:
+            Y = T.lin.op.range
+            return (lam_ * S.L1Norm(Y), (1.0 / (2 * t)) * S.L2NormSquared(Y),
+                    min(t, 1.0 / t))
+    return T.g, None, np.inf
+
+
+def _lam_arg(lam, st_):
+    """`lam` as a float or as the documented callable k -> lam_k (two
+    alternating admissible values)."""
+    if not st_.get('lam_callable'):
+        return lam
+    return lambda k: lam if k % 2 == 0 else 0.8 * lam
+
+
 def _setup(solver, P, case):
     """Map the problem onto the solver's signature and choose admissible
     step sizes.  Returns an object with ``run(x, niter, cb, **state)``."""
@@ -1167,6 +1639,7 @@ def _setup(solver, P, case):
     U = _Setup()
     U.lins = ([P.A] if P.A is not None else []) + [T.lin for T in P.terms]
     pairs = [(T.lin, T.g, T.ystar) for T in P.terms]
+    U.tags = []
     X = P.X
     if solver in ('proxgrad', 'accel'):
         smooth, lip = P.data_term(), P.lip_data
@@ -1180,9 +1653,11 @@ def _setup(solver, P, case):
             gamma = frac * 2 / lip
             beta = 1 / lip
             lam = 1.0 if not st_['relax'] else 0.7 * min(1.0, beta / gamma)
+            lam_a = _lam_arg(lam, st_)
             U.run = lambda x, n, cb: S.proximal_gradient(
-                x, f, smooth, gamma, n, callback=cb, lam=lam)
+                x, f, smooth, gamma, n, callback=cb, lam=lam_a)
             U.region = 'lam=1' if lam == 1.0 else 'lam<1'
+            U.tags = ['lam-callable'] if callable(lam_a) else []
         else:
             gamma = frac / lip
             U.run = lambda x, n, cb: S.accelerated_proximal_gradient(
@@ -1193,6 +1668,16 @@ def _setup(solver, P, case):
         f = P.phi
         h = P.data_term() if P.has_data else S.ZeroFunctional(X)
         beta = P.lip_data
+        split = [_split_l(T, st_.get('via_l')) for T in P.terms]
+        kw = {}
+        if any(li is not None for _, li, _ in split):
+            # documented condition: 2 min{1/tau, 1/sigma_i} min{eta, nu_i}
+            # sqrt(1 - tau sum sigma_i ||L_i||^2) > 1 with eta = 1/beta
+            kw['l'] = [li if li is not None else
+                       S.IndicatorZero(T.lin.op.range)
+                       for (_, li, _), T in zip(split, P.terms)]
+            beta = max(beta, 1.0 / min(nu for _, _, nu in split))
+            U.tags = ['via-l']
         sq = sum(T.lin.norm ** 2 for T in P.terms)
         q = frac * 0.6
         tmax = np.inf if beta == 0 else 0.9 * 2 * np.sqrt(1 - q) / beta
@@ -1200,11 +1685,12 @@ def _setup(solver, P, case):
         r = min(ratio, 1.0)
         t = min(np.sqrt(q / (r * sq)) if sq > 0 else 1.0, tmax)
         tau, sig = t * r, [t] * len(P.terms)
-        gs = [T.g for T in P.terms]
+        gs = [gi for gi, _, _ in split]
         Ls = [T.lin.op for T in P.terms]
         U.run = lambda x, n, cb: S.forward_backward_pd(
-            x, f, gs, Ls, h, tau, sig, n, callback=cb)
-        U.region = 'm={}'.format(min(len(gs), 2))
+            x, f, gs, Ls, h, tau, sig, n, callback=cb, **kw)
+        U.region = 'm={}'.format(min(len(gs), 2)) + \
+            (',l' if kw else '')
         return U
     # pdhg / dr / admm
     if case['map'] == 'quadf':
@@ -1226,14 +1712,29 @@ def _setup(solver, P, case):
         tau = ratio
         sq = [max(lin.norm, 1e-9) ** 2 for lin, _, _ in pairs]
         sig = [4 * frac * 0.9 / (m * tau * s) for s in sq]
-        lam = float(st_['lam'])
+        lam = _lam_arg(float(st_['lam']), st_)
+        kw = {}
+        split = [_split_l(T, st_.get('via_l')) for T in P.terms]
+        if any(li is not None for _, li, _ in split):
+            # the first len(P.terms) pairs are the terms (a data pair may
+            # follow): g_i box l_i for the split ones, l = indicator of {0}
+            # (documented as the plain problem) for the others
+            for i, (gi, li, _) in enumerate(split):
+                gs[i] = gi
+            kw['l'] = [split[i][1] if i < len(split) and
+                       split[i][1] is not None else S.IndicatorZero(L_.range)
+                       for i, L_ in enumerate(Ls)]
+            U.tags.append('via-l')
+        if callable(lam):
+            U.tags.append('lam-callable')
         U.run = lambda x, n, cb: S.douglas_rachford_pd(
-            x, f, gs, Ls, n, tau=tau, sigma=sig, callback=cb, lam=lam)
-        U.region += ',m={}'.format(min(m, 2))
+            x, f, gs, Ls, n, tau=tau, sigma=sig, callback=cb, lam=lam, **kw)
+        U.region += ',m={}'.format(min(m, 2)) + (',l' if kw else '')
         return U
     if not pairs:
         raise HarnessError('pdhg / admm need at least one term')
     L, g, ystar = _stack(P, pairs)
+    U.stacked = len(pairs) > 1
     nrm = max(L.norm, 1e-9)
     if solver == 'pdhg':
         s0 = np.sqrt(frac) / nrm
@@ -1373,8 +1874,9 @@ def _nonsmooth(desc, strata):
                'phi:' + P.phi_fd['kind']]
     for T in P.terms:
         strata.append('g:' + T.fd['kind'])
-    for t in case['p']['terms']:
-        strata.append('op:' + t['L']['kind'])
+    strata += _op_tags([t['L'] for t in case['p']['terms']],
+                       '{}:{}'.format(clause, solver),
+                       stacked=getattr(U, 'stacked', False))
     if case['p'].get('A') is not None:
         strata.append('A:' + case['p']['A']['kind'])
     ex = _exact_or_excluded(U.lins, strata)
@@ -1382,6 +1884,7 @@ def _nonsmooth(desc, strata):
         return ex
     cc = _cond_class(P, family)
     strata.append('cond:' + cc)
+    strata += ['{}:{}'.format(solver, t) for t in getattr(U, 'tags', [])]
     active = P.phi_active or any(T.active for T in P.terms)
     if active:
         strata.append('nonsmooth-active')
@@ -1425,7 +1928,10 @@ def _nonsmooth(desc, strata):
     if cc == 'hi':
         # ill-conditioned problems: first-order methods are arbitrarily
         # slow; only boundedness is asserted (catches divergence)
-        res = _iterate(U, P, unflat(x0, X), K_STABILITY, 0.0, solver)
+        # (a run that has come within 0.1 RHO of the solution has shown
+        # what this clause asks for and is not iterated further: cost)
+        res = _iterate(U, P, unflat(x0, X), K_STABILITY, 0.1 * RHO * err0,
+                       solver)
         if res['diverged'] or not res['err'] <= 1e3 * max(err0, P.scale):
             raise Violation(
                 'C12|stability|{}|family={},{}'.format(name, family,
@@ -1507,7 +2013,7 @@ def _dr_fixed_dual(c, strata):
     rng = np.random.RandomState(int(c['seed']) % (2 ** 32))
     lins = [pb.LinOp(pb.build_operator(t['L'], X), dX) for t in c['terms']]
     strata += ['fixed-dual:dr', 'domain:' + _dom_kind(c['domain'])] + \
-        ['op:' + t['L']['kind'] for t in c['terms']]
+        _op_tags([t['L'] for t in c['terms']], 'fixed-dual:dr')
     ex = _exact_or_excluded(lins, strata)
     if ex is not None:
         return ex
@@ -1602,4 +2108,18 @@ REQUIRED_STRATA = (
      'domain:tensor', 'domain:tensor-weighted', 'domain:discr',
      'domain:pspace', 'cond:lo', 'cond:mid', 'cond:hi',
      'nonsmooth-active', 'cgn:ls-checked', 'cg:clustered',
-     'cond<=1e0', 'cond<=1e2', 'cond<=1e4'])
+     'cond<=1e0', 'cond<=1e2', 'cond<=1e4',
+     # same-space operators with non-alias-safe in-place evaluation
+     'domain:sqpspace', 'op:square-inplace', 'op:laplacian', 'op:partial',
+     'op:pso_square', 'op:pso_cut', 'landweber:square-inplace',
+     'cgn:square-inplace', 'kaczmarz:square-inplace',
+     'power:square-inplace', 'steepest:square-inplace',
+     'fixed:pdhg:square-inplace', 'progress:pdhg:square-inplace',
+     'progress:admm:square-inplace', 'progress:dr:square-inplace',
+     'progress:fb:square-inplace', 'progress:proxgrad:square-inplace',
+     'progress:accel:square-inplace',
+     'cg:matrix', 'cg:block', 'cg:neglap', 'cg:start-at-solution',
+     # documented options
+     'landweber:projection', 'kaczmarz:projection', 'dr:via-l', 'fb:via-l',
+     'dr:lam-callable', 'proxgrad:lam-callable', 'ls-direct:descent',
+     'ls-direct:ascent', 'ls-direct:callable', 'power:maxiter-none'])
